@@ -703,6 +703,48 @@ func (k *pkey) genScalar(r *vh.Rng, cheap bool) *big.Int {
 	}
 }
 
+// wideScalars: magnitudes around and beyond every natural width of the scheme (N, N^2, the bit
+// lengths of N and N^2, multiples of N^2, twice the width of N^2, random 1.5x and 3x widths).
+// must = the handful always used (quick tier); rest = the others (all used in the thorough tier).
+func (k *pkey) wideScalars(r *vh.Rng) (must, rest []*big.Int) {
+	N, N2 := k.N, k.N2
+	b1, b2 := uint(N.BitLen()), uint(N2.BitLen())
+	pow2 := func(e uint) *big.Int { return new(big.Int).Lsh(one, e) }
+	add := func(x *big.Int, d int64) *big.Int { return new(big.Int).Add(x, big.NewInt(d)) }
+	mul := func(x *big.Int, c, d int64) *big.Int { return add(new(big.Int).Mul(x, big.NewInt(c)), d) }
+	neg := func(x *big.Int) *big.Int { return new(big.Int).Neg(x) }
+	must = []*big.Int{
+		add(pow2(b2), 3), neg(pow2(b2)), mul(N2, 3, 7), neg(mul(N2, 5, 1)), add(N2, 1), add(pow2(2*b2), 1),
+	}
+	pos := []*big.Int{
+		add(N, -1), new(big.Int).Set(N), add(N, 1), add(N2, -1), new(big.Int).Set(N2), add(N2, 1),
+		pow2(b1), pow2(b2), add(pow2(b2), -1), add(pow2(b2), 1), new(big.Int).Add(pow2(b2), r.BigBits(64)),
+		mul(N2, 2, 1), mul(N2, 4, 3), mul(N2, 5, 11), pow2(2 * b2), add(pow2(2*b2), -1),
+		r.BigBits(int(b2) * 3 / 2), r.BigBits(int(b2) * 3), new(big.Int).Add(pow2(b2+1), r.BigBits(int(b2))),
+	}
+	for _, x := range pos {
+		rest = append(rest, x, neg(x))
+	}
+	rest = append(rest, neg(add(pow2(b2), 3)), neg(mul(N2, 3, 7)), neg(add(pow2(2*b2), 1)))
+	return must, rest
+}
+
+// pickWide: the scalars used for one key in this tier
+func (k *pkey) pickWide(r *vh.Rng, thorough bool, extra int) []*big.Int {
+	must, rest := k.wideScalars(r)
+	if thorough {
+		return append(must, rest...)
+	}
+	out := must
+	if k.bits >= 3072 {
+		out = must[:3]
+	}
+	for i := 0; i < extra; i++ {
+		out = append(out, rest[r.Intn(len(rest))])
+	}
+	return out
+}
+
 // genSeq builds one random operation sequence of at most maxLen ciphertext operations,
 // followed by decrypt/open of the last register and of one earlier register.
 func (k *pkey) genSeq(r *vh.Rng, maxLen int, cheap bool) []pop {
@@ -791,6 +833,9 @@ func paillierSeqCase(id string, k *pkey, ops []pop) *testCase {
 		}
 		if (o.k == 'S' || o.k == 's') && o.a.Sign() < 0 {
 			nm += "-neg"
+		}
+		if (o.k == 'S' || o.k == 's') && o.a.BitLen() > k.N2.BitLen() {
+			nm += "-wide" // |scalar| >= 2^bitlen(N^2)
 		}
 		tc.names = append(tc.names, nm)
 	}
@@ -1193,8 +1238,31 @@ func newEg[E elgamal.FiniteCyclicGroupElement[E, S], S algebra.UintLike[S]](nm s
 func (e *eg[E, S]) name() string    { return e.nm }
 func (e *eg[E, S]) order() *big.Int { return e.q }
 
+// scalar builds an API scalar from an arbitrary integer through the library's own reduction
+// (FromBytesBEReduce of the unreduced magnitude, negated for negative values), so that values
+// wider than the group order exercise the implementation, not the harness.
 func (e *eg[E, S]) scalar(x *big.Int) S {
-	s, err := e.zn.FromBytesBEReduce(bmod(x, e.q).Bytes())
+	b := new(big.Int).Abs(x).Bytes()
+	if len(b) == 0 {
+		b = []byte{0}
+	}
+	s, err := e.zn.FromBytesBEReduce(b)
+	if err != nil {
+		panic(err)
+	}
+	if x.Sign() < 0 {
+		return s.Neg()
+	}
+	return s
+}
+
+// rscalar: scalar from the value reduced by math/big (used for expected points only)
+func (e *eg[E, S]) rscalar(x *big.Int) S {
+	b := bmod(x, e.q).Bytes()
+	if len(b) == 0 {
+		b = []byte{0}
+	}
+	s, err := e.zn.FromBytesBEReduce(b)
 	if err != nil {
 		panic(err)
 	}
@@ -1204,7 +1272,7 @@ func (e *eg[E, S]) scalar(x *big.Int) S {
 func (e *eg[E, S]) sbig(s S) *big.Int { return s.Cardinal().Big() }
 
 // pow returns g^x computed by the implementation's own group (subject of C14)
-func (e *eg[E, S]) pow(x *big.Int) E { return e.g.Generator().ScalarOp(e.scalar(x)) }
+func (e *eg[E, S]) pow(x *big.Int) E { return e.g.Generator().ScalarOp(e.rscalar(x)) }
 
 // ElGamal ops reuse pop: E/e (mu, r), A (i,j), S (i, s), I, H (i, delta), R/r (i, r), D
 func (e *eg[E, S]) run(a *big.Int, ops []pop) (impl [][]E, errs []string, oracle [][2]*big.Int, oracleD []*big.Int) {
@@ -1464,9 +1532,12 @@ func (e *eg[E, S]) algCases(id string, r *vh.Rng) []*testCase {
 			return r.BigBelow(q)
 		}
 	}
-	for i := 0; i < 6; i++ {
+	for i := 0; i < 8; i++ {
 		a, b := pick(), pick()
-		op := []string{"padd", "pneg", "pscale", "nadd", "nneg", "nscale"}[i]
+		op := []string{"padd", "pneg", "pscale", "nadd", "nneg", "nscale", "pscale", "nscale"}[i]
+		if i >= 6 {
+			b = egWide(r, q) // scalar wider than / around the group order
+		}
 		var exp *big.Int
 		okImpl := false
 		var err error
@@ -1529,8 +1600,52 @@ func (e *eg[E, S]) algCases(id string, r *vh.Rng) []*testCase {
 	return out
 }
 
+// egWide: scalars around and beyond the natural widths of the group order q
+func egWide(r *vh.Rng, q *big.Int) *big.Int {
+	bq := uint(q.BitLen())
+	pow2 := func(e uint) *big.Int { return new(big.Int).Lsh(one, e) }
+	var x *big.Int
+	switch r.Intn(14) {
+	case 0:
+		x = new(big.Int).Set(q)
+	case 1:
+		x = new(big.Int).Add(q, one)
+	case 2:
+		x = new(big.Int).Sub(pow2(256), one)
+	case 3:
+		x = new(big.Int).Add(pow2(256), one)
+	case 4:
+		x = pow2(bq)
+	case 5:
+		x = new(big.Int).Add(new(big.Int).Mul(q, big.NewInt(int64(2+r.Intn(4)))), big.NewInt(int64(r.Intn(9))))
+	case 6:
+		x = new(big.Int).Add(pow2(2*bq), big.NewInt(int64(r.Intn(5))))
+	case 7:
+		x = new(big.Int).Mul(q, q)
+	case 8:
+		x = r.BigBits(int(bq) * 3 / 2)
+	case 9:
+		x = r.BigBits(int(bq)*2 + 64)
+	case 10:
+		x = r.BigBits(int(bq) * 3)
+	case 11:
+		x = new(big.Int).Add(pow2(512), one)
+	case 12:
+		x = new(big.Int).Sub(q, one)
+	default:
+		x = new(big.Int).Add(new(big.Int).Mul(q, q), new(big.Int).Add(q, two))
+	}
+	if r.Bool() {
+		x.Neg(x)
+	}
+	return x
+}
+
 func genEgSeq(r *vh.Rng, q *big.Int, maxLen int) []pop {
 	pick := func() *big.Int {
+		if r.Intn(4) == 0 {
+			return egWide(r, q)
+		}
 		switch r.Intn(8) {
 		case 0:
 			return big.NewInt(0)
@@ -1818,6 +1933,27 @@ func main() {
 		}
 		cases = append(cases, paillierSeqCase(fmt.Sprintf("%s%d.fixed", k.flavour, k.bits), k, fixed))
 
+		// scalars around and beyond every natural width, on both paths; decrypt both results
+		rw := vh.NewRng(a.Seed, "C16", stream+"/paillier-wide", ki)
+		wide := k.pickWide(rw, thorough, 2)
+		for wi, sc := range wide {
+			ops := []pop{{k: 'E', a: k.genPlain(rw), b: k.genNonce(rw)}, {k: 'S', i: 0, a: sc}, {k: 's', i: 0, a: sc}, {k: 'D', i: 1}, {k: 'D', i: 2}}
+			if wi%2 == 1 {
+				ops[0].k = 'e'
+			}
+			cases = append(cases, paillierSeqCase(fmt.Sprintf("%s%d.wide%d", k.flavour, k.bits, wi), k, ops))
+		}
+		// the same scalars on plaintexts and on nonces (public and CRT path)
+		{
+			idw := func(s string, i int) string { return fmt.Sprintf("%s%d.%s%d", k.flavour, k.bits, s, i) }
+			u := k.genNonce(rw)
+			x := bmod(k.genPlain(rw), k.N)
+			for wi, sc := range wide {
+				cases = append(cases, k.qCase(idw("pscale-wide", wi), "pscale", x, sc),
+					k.qCase(idw("nscale-wide", wi), "nscale", u, sc), k.kCase(idw("nscale-wide", wi), "nscale", u, sc))
+			}
+		}
+
 		if k.bits >= 3072 && !thorough {
 			continue
 		}
@@ -1902,6 +2038,22 @@ func main() {
 				}
 			}
 			cases = append(cases, g.seqCase(strconv.Itoa(s), sa, genEgSeq(r, g.order(), egLen)))
+		}
+		// fixed wide-scalar sequence: scalars and nonces at and beyond the group order's widths
+		{
+			q := g.order()
+			p256 := new(big.Int).Lsh(one, 256)
+			wideOps := []pop{{k: 'E', a: big.NewInt(5), b: new(big.Int).Add(q, two)}, {k: 'e', a: big.NewInt(7), b: new(big.Int).Add(p256, one)}}
+			ws := []*big.Int{new(big.Int).Set(q), new(big.Int).Add(q, one), new(big.Int).Neg(q), new(big.Int).Neg(new(big.Int).Add(q, one)),
+				new(big.Int).Sub(p256, one), new(big.Int).Add(p256, one), r.BigBits(q.BitLen()*2 + 64), new(big.Int).Neg(r.BigBits(q.BitLen() * 3))}
+			for i, w := range ws {
+				wideOps = append(wideOps, pop{k: 'S', i: i % 2, a: w})
+			}
+			wideOps = append(wideOps, pop{k: 'R', i: 0, a: new(big.Int).Mul(q, q)}, pop{k: 'r', i: 1, a: new(big.Int).Neg(new(big.Int).Add(p256, two))})
+			for i := 0; i < len(ws)+4; i++ {
+				wideOps = append(wideOps, pop{k: 'D', i: i})
+			}
+			cases = append(cases, g.seqCase("wide", big.NewInt(11), wideOps))
 		}
 		for s := 0; s < 3; s++ {
 			cases = append(cases, g.sampled("s"+strconv.Itoa(s), r))
